@@ -1,21 +1,83 @@
 (** C17 — the error traceback. *)
 From Coq Require Import List ZArith Bool.
-From MX Require Import Exec.Model Exec.Spec Exec.Sim Exec.Results Exec.Top.
+From MX Require Import Exec.Model Exec.Spec Exec.Sim Exec.Results Exec.Top Exec.Chain Exec.Sim3
+  Exec.Cover Exec.Quiet Exec.Edits4 Exec.Edits6.
 Import ListNotations.
 
-(** PARTIAL.  Proved: after a failing top-level evaluation the recorded
-    traceback is non-empty, starts (outermost first) with the requested
-    element, the error kind is recorded, and nothing is left in the
-    rolled-back list — whatever happened before (any [Inv] state: earlier
-    failures, handled or not, leave no trace).  Together with C05 the error
-    is the specification's error.
-    Not proved: that the remaining entries are exactly the executing chain
-    with the call-site lines (needs a specification-level chain; the
-    reference-interpreter oracle and the correspondence check it on every
-    run). *)
+(** The specification of the traceback is [Chain.spec_chain]: the
+    specification evaluator (a function of the current definitions and
+    inputs only — no cache, no stack, no history) instrumented with the chain
+    of elements whose formulas are executing when the error escapes, each with
+    the line where the next call or the error occurred.
+
+    [C17_traceback_exact]: in ANY state satisfying the executor invariant
+    (hence after any history, see the two corollaries) a failing top-level
+    evaluation records exactly the specification's error and exactly the
+    specification's chain, and leaves nothing in the rolled-back list.
+    Excluded: the recursion-depth error [KDeep] (it depends on the executor's
+    stack limit, which the specification does not have). *)
+Theorem C17_traceback_exact : forall fuel st i k st',
+  eval_top fuel st i = (Err k, st') -> k <> KDeep -> Inv st ->
+  lookup_cell (s_cells st) (fst i) <> None ->
+  forall g rc cc, spec_chain g (defs_of st) (input_data st) i = (rc, cc) -> rc <> OutOfFuel ->
+  rc = Err k /\ s_err st' = Some (k, cc) /\ s_rolled st' = [].
+Proof. exact traceback_exact. Qed.
+Print Assumptions C17_traceback_exact.
+
+(** irrespective of earlier failures, escaped or handled by formulas: any
+    sequence of earlier evaluations, no restriction on the formulas *)
+Theorem C17_exact_after_any_evaluations : forall fuel cells refs maxd ops xs st i k st',
+  forallb is_eval ops = true ->
+  run fuel (init cells refs maxd) ops = (xs, st) -> no_fuel_out xs ->
+  eval_top fuel st i = (Err k, st') -> k <> KDeep -> lookup_cell cells (fst i) <> None ->
+  forall g rc cc, spec_chain g (cells, refs) [] i = (rc, cc) -> rc <> OutOfFuel ->
+  rc = Err k /\ s_err st' = Some (k, cc) /\ s_rolled st' = [].
+Proof. exact traceback_exact_after_evals. Qed.
+Print Assumptions C17_exact_after_any_evaluations.
+
+(** … and after histories that also edit values, formulas and references
+    (under the hypotheses of C02) *)
+Theorem C17_exact_after_any_history : forall fuel cells refs maxd ops xs st i k st',
+  defs_ok cells -> refn_ok (init cells refs maxd) -> ops_ok2 fuel (init cells refs maxd) ops ->
+  run fuel (init cells refs maxd) ops = (xs, st) -> no_fuel_out xs -> s_reent st = false ->
+  eval_top fuel st i = (Err k, st') -> k <> KDeep -> lookup_cell (s_cells st) (fst i) <> None ->
+  forall g rc cc, spec_chain g (defs_of st) (input_data st) i = (rc, cc) -> rc <> OutOfFuel ->
+  rc = Err k /\ s_err st' = Some (k, cc) /\ s_rolled st' = [].
+Proof. exact traceback_exact_after_history. Qed.
+Print Assumptions C17_exact_after_any_history.
+
+(** a successful evaluation leaves no frames behind for the next failure *)
+Theorem C17_success_leaves_nothing : forall fuel st i v st',
+  eval_top fuel st i = (Val v, st') -> Inv st -> s_rolled st = [] -> s_rolled st' = [].
+Proof. exact success_no_traceback. Qed.
+Print Assumptions C17_success_leaves_nothing.
+
+(** the weaker statement proved first (kept: it has no [KDeep] exclusion) *)
 Theorem C17_traceback_outermost_partial : forall fuel st i k st' cl,
   eval_top fuel st i = (Err k, st') -> Inv st -> s_stack st = [] ->
   lookup_cell (s_cells st) (fst i) = Some cl ->
   exists ln rest, s_err st' = Some (k, (i, ln) :: rest) /\ s_rolled st' = [].
 Proof. exact traceback_outermost. Qed.
 Print Assumptions C17_traceback_outermost_partial.
+
+(** Non-vacuity: an escaped failure (cell 3), then a failure that cell 4
+    catches and handles itself around a call, then a failing request through
+    an uncached cell; the recorded traceback is the specification chain of
+    the last request only. *)
+Definition ex17_cells : list (cid * cell) :=
+  [ (0, mkCell [SAssign (ECall 1 [EPar 0]); SAssign (ECall 2 [EPar 0])] 1 [] true false 0);
+    (1, mkCell [SAssign (EBin Add (EPar 0) (EConst (VInt 1)))] 1 [] true false 0);
+    (2, mkCell [SAssign (ECall 3 [EPar 0])] 1 [] false false 0);
+    (3, mkCell [SAssign (EBin FloorDiv (EConst (VInt 1)) (EConst (VInt 0)))] 1 [] true false 0);
+    (4, mkCell [STry (ECall 3 [EPar 0]) (EConst (VInt 7))] 1 [] true false 0) ].
+Example C17_example :
+  let ops := [OpEval (3, [VInt 4]); OpEval (4, [VInt 4])] in
+  let r := run 100 (init ex17_cells [] 50) ops in
+  let e := eval_top 100 (snd r) (0, [VInt 4]) in
+  forallb is_eval ops = true
+  /\ fst r = [OErr KZero; OVal (VInt 7)]
+  /\ fst e = Err KZero
+  /\ s_err (snd e) = Some (KZero, [((0, [VInt 4]), 4); ((2, [VInt 4]), 3); ((3, [VInt 4]), 3)])
+  /\ spec_chain 100 (ex17_cells, []) [] (0, [VInt 4])
+     = (Err KZero, [((0, [VInt 4]), 4); ((2, [VInt 4]), 3); ((3, [VInt 4]), 3)]).
+Proof. vm_compute. repeat split; reflexivity. Qed.
